@@ -218,7 +218,6 @@ Proof.
     rewrite Z.shiftr_div_pow2 by lia. reflexivity.
   - reflexivity.
   - reflexivity.
-  - reflexivity.
 Qed.
 
 Lemma un_step o a :
